@@ -41,3 +41,10 @@ Example C15_example :
   = (let r := position_bases 1 [b0; BNode (mksp 3 5 0 500 0 0 0 true) Leaf Leaf] (0, 0) in (vscale 3 (fst r), pscale 3 (snd r)))
   /\ snd (position_bases 1 [b0] (0, 0)) <> [].
 Proof. vm_compute. split; [reflexivity | discriminate]. Qed.
+
+(* tie A for the accessor: what gr_slot_advance_X / gr_slot_advance_Y return with an unhinted font (definitions regenerated from their
+   bodies in src/gr_slot.cpp) is the value with font = NULL multiplied by the font's scale -- whether or not the caller passes the face. *)
+From GR Require Import Gen.GenLoop Proofs.GenAgreeLoop.
+Theorem C15_slot_advance_scales : forall res scale face_given, GenLoop.slot_advance_unhinted res scale face_given = (scale * GenLoop.slot_advance_nofont res)%Z.
+Proof. exact gen_slot_advance_scales. Qed.
+Print Assumptions C15_slot_advance_scales.
